@@ -679,3 +679,81 @@ pub fn gen_case(rng: &mut Rng, cfg: &GenCfg) -> (usize, u64, Vec<String>) {
     }
     (nreps, sqlite_mask, lines)
 }
+
+
+fn permutations(n: usize) -> Vec<Vec<usize>> {
+    if n == 1 {
+        return vec![vec![0]];
+    }
+    let mut out = Vec::new();
+    for p in permutations(n - 1) {
+        for i in 0..n {
+            let mut q = p.clone();
+            q.insert(i, n - 1);
+            out.push(q);
+        }
+    }
+    out
+}
+
+/// one conflict group: the same concurrent changes, synchronized in every order
+pub fn gen_conflict_group(rng: &mut Rng) -> Vec<(String, usize, Vec<String>)> {
+    let nreps = 2 + rng.below(2) as usize;
+    let keys = ["p", "q"];
+    let vals = ["x", "y", "x", ""];
+    let times: [(i64, u32); 4] = [(100, 0), (100, 0), (200, 0), (100, 5)];
+    let mut setup = vec![format!("R {}", nreps)];
+    // task 1 exists everywhere (sometimes with a value), task 2 exists nowhere yet
+    setup.push("C 0 create 1".to_string());
+    if rng.chance(1, 2) {
+        setup.push(format!("C 0 update 1 {} {} 50 0", enc_str("p"), enc_str("old")));
+    }
+    if rng.chance(1, 3) {
+        setup.push("C 0 create 3".to_string());
+    }
+    for r in 0..nreps {
+        setup.push(format!("S {} 0 n", r));
+    }
+    for r in 0..nreps {
+        setup.push(format!("S {} 0 n", r));
+    }
+    // concurrent changes
+    let mut pending = Vec::new();
+    for r in 0..nreps {
+        let n = 1 + rng.below(3);
+        for _ in 0..n {
+            let u = *rng.pick(&[1u32, 1, 1, 2, 3]);
+            let roll = rng.below(10);
+            if roll < 6 {
+                let (s, nn) = *rng.pick(&times);
+                let v = if rng.chance(1, 6) { "-".to_string() } else { enc_str(*rng.pick(&vals)) };
+                pending.push(format!("C {} update {} {} {} {} {}", r, u, enc_str(*rng.pick(&keys)), v, s, nn));
+            } else if roll < 8 {
+                pending.push(format!("C {} delete {}", r, u));
+            } else {
+                pending.push(format!("C {} create {}", r, u));
+            }
+        }
+    }
+    // sometimes one replica makes a further change after seeing another's (causal order)
+    let causal = rng.chance(1, 4);
+    let mut out = Vec::new();
+    for (pi, perm) in permutations(nreps).iter().enumerate() {
+        let mut lines = setup.clone();
+        lines.extend(pending.iter().cloned());
+        for r in perm {
+            lines.push(format!("S {} 0 n", r));
+        }
+        if causal {
+            let r = perm[nreps - 1];
+            lines.push(format!("C {} update 1 {} {} 10 0", r, enc_str("p"), enc_str("after")));
+        }
+        for _ in 0..2 {
+            for r in 0..nreps {
+                lines.push(format!("S {} 0 n", r));
+            }
+        }
+        out.push((format!("perm={}", pi), nreps, lines));
+    }
+    out
+}
